@@ -164,6 +164,16 @@ def build_specs(ctx, d):
         g.append(spec("example-2-chains", "start-order=(1, 0)", example, 2, a, env={"PHYCLONE_VERIF_START_DELAYS": delays((1, 0), gap)}))
     g.append(spec("example-2-chains", "pool-workers=1", example, 2, a, env={"PV_POOL_WORKERS": 1}))
     groups.append(("example-2-chains", g))
+    # --- worker reuse on the pre-clustered example (regression for the finding repaired in /repo: the numeric caches of the
+    # tree recursion are keyed order-insensitively, so a chain that found them warm from an earlier chain of the same worker
+    # process recorded log_p_one values differing in the last bit; fixed seed and options on which that was observed)
+    ex_clusters = os.path.join(runs.REPO, "examples", "data", "mixing_small_clusters.tsv")
+    a = ["--proposal", "fully-adapted", "-c", ex_clusters, "--outlier-prob", 0.001, "--subtree-update-prob", 0.25, "--grid-size", 51]
+    g = [spec("example-clustered-3-chains", "reference", example, 3, a), spec("example-clustered-3-chains", "pool-workers=1", example, 3, a, env={"PV_POOL_WORKERS": 1})]
+    for sp in g:
+        for opt, val in (("--seed", 2), ("-n", 24), ("--num-particles", 8)):
+            sp["args"][sp["args"].index(opt) + 1] = str(val)
+    groups.append(("example-clustered-3-chains", g))
     return groups, seed
 
 
